@@ -1,11 +1,11 @@
 (* C06: the evaluator's per-position verdict vs. the simulation, on whole tours. *)
 From VRP Require Import Base.Tac Model.Core Spec.Feasible Proofs.CoreTimeP Proofs.CoreCapP.
 
-(* one activity carries one kind of demand (static pickup | static delivery | dynamic pickup | dynamic delivery) *)
+(* one activity carries either static demand (pickup and/or delivery: an exchange stop, e.g. a merged job, may have both)
+   or one kind of dynamic (shipment) demand: dynamic pickup | dynamic delivery *)
 Definition simple_demand (d : demand) : Prop :=
   0 <= d_ps d /\ 0 <= d_pd d /\ 0 <= d_ds d /\ 0 <= d_dd d /\
-  ((d_pd d = 0 /\ d_ds d = 0 /\ d_dd d = 0) \/ (d_ps d = 0 /\ d_ds d = 0 /\ d_dd d = 0) \/
-   (d_ps d = 0 /\ d_pd d = 0 /\ d_dd d = 0) \/ (d_ps d = 0 /\ d_pd d = 0 /\ d_ds d = 0)).
+  ((d_pd d = 0 /\ d_dd d = 0) \/ (d_ps d = 0 /\ d_ds d = 0 /\ d_dd d = 0) \/ (d_ps d = 0 /\ d_pd d = 0 /\ d_ds d = 0)).
 
 Lemma Forall_map_iff {A B} (f : A -> B) (P : B -> Prop) l : Forall P (map f l) <-> Forall (fun x => P (f x)) l.
 Proof. induction l as [|a l IH]; cbn; split; intros H; try constructor; inversion H; subst; try tauto; constructor; tauto. Qed.
@@ -132,6 +132,19 @@ Proof.
   { revert idx H; induction t as [|x t IH]; intros idx H; cbn in H; [lia|].
     destruct idx as [|idx]; [reflexivity|]. cbn [firstn nth app]. f_equal. apply IH. lia. }
   rewrite E, <- app_assoc. reflexivity.
+Qed.
+
+Lemma cap_complete_idx : forall v t k x st,
+  (k < length t)%nat -> (forall d, d_change (a_dem (hd d t)) = 0) -> simple_demand (a_dem x) ->
+  0 <= start_delivery t -> load_feasible (v_cap v) t = true -> load_feasible (v_cap v) (insert_after t k x) = true ->
+  demand_violation v t k (a_dem x) st = None.
+Proof.
+  intros v t k x st Hk Hst Hd Hnn Hfl Hil.
+  destruct (split_at t k x Hk) as [Et Hl].
+  rewrite (insert_after_split t k x x Hk) in Hil.
+  set (A := firstn k t) in *. set (q := nth k t x) in *. set (B := skipn (S k) t) in *.
+  pose proof (Hst q) as Hst'. rewrite <- Hl. rewrite Et. rewrite Et in Hfl, Hst', Hnn.
+  apply (cap_complete A q B x v); try assumption; try (destruct A; exact Hst').
 Qed.
 
 Section Whole.
